@@ -256,9 +256,37 @@ def wrapper_pairs(m, fam):
     return out
 
 
+def indexes_server_state(stmt):
+    """statement raiser for the wrappers: indexing a table of the server or
+    its manager (`self.sio.manager.rooms[namespace]`, `self.sio.environ[x]`)
+    fails for a key that is not there - the instrumentation must not add
+    such a failure in front of the original."""
+    for n in ast.walk(stmt):
+        if isinstance(n, ast.Subscript) and isinstance(n.ctx, ast.Load) and \
+                U(n.value).startswith('self.sio.'):
+            return {'KeyError'}
+    return None
+
+
 def check_wrapper(ctx, w, saved, construct):
     m = ctx.model
-    run = run_function(w, m, max_iter=1)
+    run = run_function(w, m, max_iter=1, stmt_raiser=indexes_server_state)
+    seen_pre = set()
+    for p in run.paths:
+        if p.exit == 'exc' and p.origin is not None and \
+                p.origin.kind == 'stmt-fails':
+            called = [e for e in p.events if e.kind == 'call' and
+                      isinstance(e.expr.func, ast.Attribute) and
+                      e.expr.func.attr == saved]
+            if not called and p.origin.lineno not in seen_pre:
+                seen_pre.add(p.origin.lineno)
+                ctx.bad(construct, 'fails-before-original', 'the wrapper '
+                        'indexes server state (%s) before it has called the '
+                        'original %s: for a key that is not there it raises '
+                        'where the uninstrumented server would not, and the '
+                        'original never runs' % (
+                            U(p.origin.node)[:70], saved),
+                        where(w, p.origin.node))
     own = [p for p in w.params if p not in ('self', 'socket', 'ws')
            or p == 'ws' and False]
     # for partialmethod wrappers the first two params are (socket, self)
